@@ -130,7 +130,7 @@ def run(ctx: Ctx):
                     from .C04 import rank_sensitive_consumer
                     from .C04 import value_wrappers
                     W_ = value_wrappers(root, h.node)
-                    returned = any(nf.strip(r) is h.node or r is h.node or r.id in W_ for r in rets)
+                    returned = any(nf.strip(r) is h.node or r is h.node or r.id in W_ for r in rets) or any(_elementwise_reach(r, h.node) for r in rets)
                     if not (returned or rank_sensitive_consumer(root, h.node) or _feeds_module(root, h.node)):
                         ctx.note(f"{lab}: dimension-less squeeze feeds only rank-insensitive arithmetic: {text}")
                         continue
@@ -164,6 +164,7 @@ def run(ctx: Ctx):
     normalization(ctx)
     feature_axis(ctx)
     deterministic_inference(ctx)
+    stateless_forward(ctx)
     # replicated rows must keep their instance (shared with C12.a): a layout mismatch between the replicated state and the
     # replicated embeddings makes an instance's result depend on its batch-mates
     from . import C12
@@ -341,6 +342,57 @@ def deterministic_inference(ctx: Ctx):
                                construct=f"{cn}.{m.name}:dropout-in-eval")
     if n_cls < 40 or n_dp < 2:
         raise AnalysisError(f"only {n_cls} classes / {n_dp} dropout_p sites scanned")
+
+
+_EW_OPS = {"+", "-", "*", "/", "neg", "phi", "ifexp", "tuple", "nograd", "**", "&", "|", "inv"}
+_EW_METHS = {"tanh", "exp", "log", "sigmoid", "relu", "float", "clone", "to", "masked_fill", "masked_fill_", "clamp", "abs", "sqrt", "contiguous", "detach", "softmax", "log_softmax", "type_as", "double"}
+_EW_FUNCS = {"tanh", "exp", "log", "sigmoid", "relu", "where", "softmax", "log_softmax", "clamp", "maximum", "minimum"}
+
+
+def _elementwise_reach(root, node, depth=0) -> bool:
+    """is `node` handed out by `root` through rank-preserving elementwise operations only (so the caller receives a tensor of
+    the squeezed rank)?"""
+    if not isinstance(root, vg.S) or depth > 60:
+        return False
+    if root is node or nf.strip(root) is node:
+        return True
+    ok = root.op in _EW_OPS or (root.op == "meth" and root.args[1] in _EW_METHS) or ((nf._fn(root) or "").split(".")[-1] in _EW_FUNCS)
+    if not ok:
+        return False
+    return any(_elementwise_reach(a, node, depth + 1) for a in root.args if isinstance(a, vg.S))
+
+
+STATE_EXCEPTIONS = {
+    ("MultiStageFFSPDecoder", "cached_embs"): "written by _precompute_cache, which the policy calls at the start of every rollout with the embeddings of THAT batch; read only during that rollout",
+}
+
+
+def stateless_forward(ctx: Ctx):
+    """C14.h the modules on the inference path keep no per-call state on themselves: a tensor stored on `self` in a forward /
+    helper method survives into the next call and, within one rollout, is not re-ordered when beam search re-indexes the rows
+    of the state -- the result for an instance then depends on what was decoded before it or in which row it used to be."""
+    import ast as _ast
+    n_m = 0
+    for name, mi in sorted(ctx.repo.modules.items()):
+        if not in_scope(name):
+            continue
+        for cn, c in sorted(mi.classes.items()):
+            for m in c.methods.values():
+                if m.name in ("__init__", "reset_parameters", "init_parameters", "_init_weights", "__setstate__", "setup") or (m.name.startswith("__") and m.name != "__call__"):
+                    continue
+                n_m += 1
+                for st in _ast.walk(m.node):
+                    tg = st.targets if isinstance(st, _ast.Assign) else ([st.target] if isinstance(st, (_ast.AugAssign, _ast.AnnAssign)) else [])
+                    for t in tg:
+                        for e in (t.elts if isinstance(t, _ast.Tuple) else [t]):
+                            if isinstance(e, _ast.Attribute) and isinstance(e.value, _ast.Name) and e.value.id == "self":
+                                why = STATE_EXCEPTIONS.get((cn, e.attr))
+                                ctx.repo.note(mi)
+                                ctx.ob("C14.h", f"{cn}.{m.name}:self.{e.attr}:no-state-across-calls", why is not None, f"{mi.relpath}:{st.lineno}",
+                                       (f"exception: {why}" if why else f"`self.{e.attr}` is (re)assigned in {cn}.{m.name}: state kept on the module between forward calls / across the rows of a rollout"),
+                                       construct=f"{cn}.{m.name}:module-state:{e.attr}")
+    if n_m < 100:
+        raise AnalysisError(f"only {n_m} methods scanned for module state")
 
 
 def _feeds_module(root, node) -> bool:
